@@ -24,6 +24,12 @@ impl std::fmt::Debug for Dummy {
 impl Append for Dummy {
     fn append(&self, _: &Record) -> anyhow::Result<()> {
         self.1.lock().unwrap().push(self.0);
+        // every second object fails AFTER recording the call: the logger built by `Logger::new` hands the
+        // error to its default handler, which reports on stderr (fd 2 is on /dev/full during `exec`) and
+        // must neither panic nor keep the later appenders from being called
+        if self.0 % 2 == 0 {
+            anyhow::bail!("dummy {} fails", self.0)
+        }
         Ok(())
     }
     fn flush(&self) {}
